@@ -3,7 +3,7 @@
 import json, os, re, sys
 rows = {}
 for line in open(sys.argv[1]):
-    m = re.match(r'(C\d\d-(?:r[23])?m\d) check=(C\d\d) (exit=\d)? ?:: ?(.*)', line.strip())
+    m = re.match(r'(C\d\d-(?:r[234])?m\d) check=(C\d\d) (exit=\d)? ?:: ?(.*)', line.strip())
     if not m:
         continue
     mid, chk, ex, rest = m.groups()
